@@ -73,7 +73,13 @@ def lines_for(spec, rep, want=("geom", "pic", "scale", "layout", "size")):
             return None
         finally:
             I._state["layers"] = None
-    G = {"svg": parse_svg(docs["svg"]), "tikz": parse_tikz(docs["tikz"])}
+    try:
+        G = {"svg": parse_svg(docs["svg"]), "tikz": parse_tikz(docs["tikz"])}
+    except Exception as e:
+        # the exported text no longer has the shape the parser knows: not an alarm by itself (the drawing may be equivalent), but the
+        # correspondence for this timeline cannot be established
+        rep.corr_fail.append(("an exported document could not be read back (%s: %s)" % (type(e).__name__, str(e)[:120]), {"case": {"kind": "timeline", "spec": spec}}))
+        return None
     for backend in ("svg", "tikz"):
         tl, g = tls[backend], G[backend]
         o = tl.options
@@ -98,6 +104,14 @@ def lines_for(spec, rep, want=("geom", "pic", "scale", "layout", "size")):
         if "geom" in want:
             out.append(("geom|%s|%s|%s|%d|%s|%s|%s|%s" % (d, fr(ro["nodeHeight"]), fr(ro["layerGap"]), c08, node_states(tl), boxes_str(g["boxes"]),
                                                          ",".join(fr(v) for v in dots), ";".join(steps_str(l) for l in g["links"])), "geom-" + backend))
+        if "pipe" in want and spec.get("dyadic"):
+            # the whole of Timeline.compute + this emitter against the composed model: nodes as get_nodes built them, the options, the printed boxes
+            idx = {id(it): k for k, it in enumerate(tl.items)}
+            by_item = {idx[id(nd.data)]: nd for nd in tl.nodes}
+            items = ";".join("%s:%s:%s" % (fr(by_item[k].idealPos), fr(by_item[k].w), fr(by_item[k].h)) for k in range(len(tl.items)))
+            lab = {k: v for k, v in o["labella"].items() if k in ("nodeSpacing", "lineSpacing", "minPos", "maxPos", "algorithm", "density", "stubWidth")}
+            bx = ";".join("%d:%d:%s" % (nd.layerIndex, idx[id(nd.data)], ":".join(fr(v) for v in b)) for nd, b in zip(tl.nodes, g["boxes"]))
+            out.append(("pipe|%s|%s|%s|%s|%s" % (d, fr(o["layerGap"]), I._eopts(lab), items, bx), "pipe-" + backend))
         if "size" in want:
             pad = o["labelPadding"]
             items = ";".join("%s:%d" % (fr(dd["width"]), 1 if TG.text_of(spec, dd) else 0) for dd in spec["data"])
@@ -202,6 +216,7 @@ def lines_for(spec, rep, want=("geom", "pic", "scale", "layout", "size")):
 
 
 PROP_FIELDS = {
+    "_pipe": {"pipe": (["same", "layers"], [])},
     "C07": {"geom": (["box", "dot", "link"], ["counts", "linkends", "hops"]), "size": ([], ["sizes", "texts"]), "tscale": ([], ["same", "back"]),
             "lin": ([], ["same"]), "tnice": (["same"], []), "lnice": (["same"], []), "tticks": (["same"], []), "lticks": (["same"], []),
             "tfmt": (["same"], []), "layer": (["order", "pos", "xs"], [])},
@@ -213,11 +228,14 @@ PROP_FIELDS = {
 def body(pid, tier, seed, rep, only_prop=False, scale=1):
     rng = rng_for(seed, "render")
     n = common.count(tier, 600, 6000) * scale
-    want = {"C07": ("geom", "scale", "layout", "size"), "C08": ("geom", "layout"), "C09": ("pic", "geom")}[pid]
+    want = {"C07": ("geom", "scale", "layout", "size", "pipe"), "C08": ("geom", "layout", "pipe"), "C09": ("pic", "geom")}[pid]
     lines, metas = [], []
-    for k in range(n):
-        spec = TG.gen_spec(rng, tier)
-        if k % 4 == 3:
+    ndy = common.count(tier, 150, 2500) * scale if "pipe" in want else 0
+    for k in range(n + ndy):
+        spec = TG.gen_spec(rng, tier) if k < n else TG.gen_dyadic_spec(rng)
+        if k >= n:
+            rep.count("dyadic-timeline")
+        elif k % 4 == 3:
             # crowded variant: a bounded layer width that forces several layers, thick and lopsided label padding, small layer gaps —
             # where boxes of neighbouring layers and neighbouring labels come closest
             o = spec["options"]
@@ -243,9 +261,9 @@ def body(pid, tier, seed, rep, only_prop=False, scale=1):
     for line, meta, ans in zip(lines, metas, answers):
         f = fields(ans)
         cmd = f["_cmd"]
-        corr_keys, prop_keys = PROP_FIELDS[pid].get(cmd, ([], []))
+        corr_keys, prop_keys = PROP_FIELDS["_pipe" if cmd == "pipe" else pid].get(cmd, ([], []))
         payload = {"case": meta, "driver_line": line[:4000], "driver_answer": ans}
-        nontrivial = (cmd == "geom" and int(f.get("layers", "1")) > 1) or (cmd == "pic" and int(f.get("n", "0")) > 1)
+        nontrivial = (cmd == "geom" and int(f.get("layers", "1")) > 1) or (cmd == "pipe" and int(f.get("nlayers", "1")) > 1) or (cmd == "pic" and int(f.get("n", "0")) > 1)
         rep.case(line, nontrivial=nontrivial, sample={"case": {"tag": meta["tag"], "kind": meta["spec"]["kind"], "n": len(meta["spec"]["data"]), "options": meta["spec"]["options"]}, "driver": ans} if nontrivial else None)
         rep.count("line=" + meta["tag"]); rep.count("dir=" + str(meta["spec"]["options"].get("direction", "default"))) if cmd in ("geom", "pic") else None
         if f.get("model") == "fail" and cmd != "layer":
